@@ -15,6 +15,8 @@ import (
 	"sort"
 	"strings"
 
+	"go/types"
+
 	"golang.org/x/tools/go/ssa"
 	"kverif/internal/smt"
 )
@@ -24,6 +26,7 @@ type FSNode struct {
 	Mode    uint32
 	Temp    bool
 	Data    []byte // prior files only: what ReadFile returns
+	stale   bool   // opened for writing without O_TRUNC, nothing written yet
 }
 
 type FSEvent struct {
@@ -59,6 +62,35 @@ type FSModel struct {
 	AbsOf      map[string]value
 	Mode       string // "fault" (crash+fault exploration) or "trace"
 	WriteMid   bool
+	// ExploreUmask: the process umask is an environment parameter; when a file is created
+	// with an explicit permission argument (OpenFile, WriteFile, Create) the run forks over
+	// {022, 027, 077} (once per path). Chmod is not subject to the umask; CreateTemp creates
+	// 0600 whatever the umask. Without ExploreUmask the umask is 022.
+	ExploreUmask bool
+	umask        int // -1: not chosen yet
+	UmaskUsed    bool
+}
+
+var umaskChoices = []uint32{0o022, 0o027, 0o077}
+
+// createMode is the mode a file created with permission argument perm receives.
+func (m *FSModel) createMode(ps *PathState, perm uint32) uint32 {
+	if m.umask < 0 {
+		m.umask = 0o022
+		if m.ExploreUmask {
+			m.umask = int(umaskChoices[ps.Choice(len(umaskChoices), "umask")])
+		}
+	}
+	m.UmaskUsed = true
+	return perm &^ uint32(m.umask)
+}
+
+// Umask reports the umask of the path (022 unless explored).
+func (m *FSModel) Umask() int {
+	if m.umask < 0 {
+		return 0o022
+	}
+	return m.umask
 }
 
 func pathKey(v value) string {
@@ -315,7 +347,17 @@ func InstallFSStubs(e *Engine, srcRoot string) {
 				panic(pathEnd{fmt.Sprintf("crash inside Write (step %d)", n)})
 			}
 		}
-		node.Content = "full:" + h
+		if strings.HasPrefix(node.Content, "partial:stale") || node.stale {
+			// written over an untruncated file: a longer previous content keeps its tail
+			if len(node.Data) > len(data) {
+				node.Content = "mixed:" + h
+			} else {
+				node.Content = "full:" + h
+			}
+			node.stale = false
+		} else {
+			node.Content = "full:" + h
+		}
 		m.event("write", f.name, nil, h)
 		return tuple{len(data), iface{}}
 	}
@@ -385,9 +427,14 @@ func InstallFSStubs(e *Engine, srcRoot string) {
 		m := model(ps)
 		data := bytesOf(args[1])
 		h := hashBytes(data)
-		node := &FSNode{Content: "empty", Mode: uint32(asInt64(args[2]))}
 		if m.step(ps, "WriteFile") {
 			return fsErr("WriteFile", m.Step-1)
+		}
+		node := &FSNode{Content: "empty", Mode: 0}
+		if old := m.lookup(args[0]); old != nil {
+			node.Mode = old.Mode // an existing file keeps its mode
+		} else {
+			node.Mode = m.createMode(ps, uint32(asInt64(args[2])))
 		}
 		m.Nodes[pathKey(args[0])] = node
 		m.PathVals[pathKey(args[0])] = args[0]
@@ -410,10 +457,55 @@ func InstallFSStubs(e *Engine, srcRoot string) {
 		if m.step(ps, "Create") {
 			return tuple{(*fileObj)(nil), fsErr("Create", m.Step-1)}
 		}
-		m.Nodes[pathKey(args[0])] = &FSNode{Content: "empty", Mode: 0o644}
+		cmode := uint32(0)
+		if old := m.lookup(args[0]); old != nil {
+			cmode = old.Mode
+		} else {
+			cmode = m.createMode(ps, 0o666)
+		}
+		m.Nodes[pathKey(args[0])] = &FSNode{Content: "empty", Mode: cmode}
 		m.PathVals[pathKey(args[0])] = args[0]
 		m.event("create", args[0], nil, "")
 		return tuple{&fileObj{name: args[0]}, iface{}}
+	}
+	ic["os.OpenFile"] = func(ps *PathState, fr *frame, fn *ssa.Function, args []value) value {
+		m := model(ps)
+		flag := int(asInt64(args[1]))
+		if m.step(ps, "OpenFile") {
+			return tuple{(*fileObj)(nil), fsErr("OpenFile", m.Step-1)}
+		}
+		old := m.lookup(args[0])
+		switch {
+		case old != nil && flag&os.O_CREATE != 0 && flag&os.O_EXCL != 0:
+			return tuple{(*fileObj)(nil), NewErr("fs", "fs:exist", "file exists", nil)}
+		case old == nil && flag&os.O_CREATE == 0:
+			return tuple{(*fileObj)(nil), errNotExist}
+		case old == nil:
+			temp := strings.HasPrefix(filepath.Base(fmt.Sprint(args[0])), ".tmp-")
+			if sy, ok := args[0].(Sym); ok {
+				temp = strings.Contains(sy.T, "/.tmp-")
+			}
+			m.Nodes[pathKey(args[0])] = &FSNode{Content: "empty", Mode: m.createMode(ps, uint32(asInt64(args[2]))), Temp: temp}
+		case flag&os.O_TRUNC != 0:
+			m.Nodes[pathKey(args[0])] = &FSNode{Content: "empty", Mode: old.Mode, Temp: old.Temp}
+		default:
+			// opened for writing without truncation: what is written replaces a prefix only
+			cp := *old
+			cp.stale = true
+			m.Nodes[pathKey(args[0])] = &cp
+		}
+		m.PathVals[pathKey(args[0])] = args[0]
+		m.event("openfile", args[0], nil, fmt.Sprintf("flag=%#x", flag))
+		return tuple{&fileObj{name: args[0]}, iface{}}
+	}
+	// randomness: fresh values (the contract of a random source used for unique names)
+	for _, name := range []string{"math/rand/v2.Uint64", "math/rand/v2.Uint32", "math/rand/v2.Int", "math/rand/v2.Int64", "math/rand.Int", "math/rand.Int63", "math/rand.Uint64", "math/rand.Uint32"} {
+		ic[name] = func(ps *PathState, fr *frame, fn *ssa.Function, args []value) value {
+			m := model(ps)
+			m.ntmp++
+			res := fn.Signature.Results().At(0).Type().Underlying().(*types.Basic)
+			return convertBasicInt(res.Kind(), int64(7919*m.ntmp+104729))
+		}
 	}
 	ic["os.Stat"] = func(ps *PathState, fr *frame, fn *ssa.Function, args []value) value {
 		m := model(ps)
@@ -578,7 +670,7 @@ func InstallFSStubs(e *Engine, srcRoot string) {
 
 // NewFSModel creates the model for one path.
 func NewFSModel(ps *PathState, mode, srcRoot string) *FSModel {
-	m := &FSModel{Prior: map[string]*FSNode{}, Removed: map[string]bool{}, Nodes: map[string]*FSNode{}, PathVals: map[string]value{}, Dirs: map[string]bool{}, Faulted: -1, SrcRoot: srcRoot, Mode: mode, AbsOf: map[string]value{}}
+	m := &FSModel{umask: -1, Prior: map[string]*FSNode{}, Removed: map[string]bool{}, Nodes: map[string]*FSNode{}, PathVals: map[string]value{}, Dirs: map[string]bool{}, Faulted: -1, SrcRoot: srcRoot, Mode: mode, AbsOf: map[string]value{}}
 	if mode == "fault" {
 		m.CrashAt = ps.Fresh(SInt, "crashAt")
 		m.FaultAt = ps.Fresh(SInt, "faultAt")
@@ -640,3 +732,19 @@ func (m *FSModel) SetPrior(path value, data []byte, mode uint32) {
 
 // Effective returns the file at path after the run (written or prior).
 func (m *FSModel) Effective(path value) *FSNode { return m.lookup(path) }
+
+func convertBasicInt(k types.BasicKind, v int64) value {
+	switch k {
+	case types.Uint64:
+		return uint64(v)
+	case types.Uint32:
+		return uint32(v)
+	case types.Int64:
+		return v
+	case types.Int32:
+		return int32(v)
+	case types.Uint:
+		return uint(v)
+	}
+	return int(v)
+}
